@@ -1,13 +1,14 @@
 #!/bin/sh
 # runs the pinned suite (guard off) on /repo (or $1) and compares with BASELINE.json stable_pass
 R=${1:-/repo}
-cd $R && GOFLAGS=-mod=mod GOPROXY=off GOSUMDB=off GOTOOLCHAIN=local go test -json -vet=off -count=1 -timeout 25m ./... > /tmp/suite.json 2>/tmp/suite.err
-python3 - <<'PY'
-import json
+T=$(mktemp -d /tmp/suite.XXXXXX)
+cd $R && GOFLAGS=-mod=mod GOPROXY=off GOSUMDB=off GOTOOLCHAIN=local go test -json -vet=off -count=1 -timeout 25m ./... > $T/suite.json 2>$T/suite.err
+python3 - $T/suite.json <<'PY'
+import json,sys
 base=json.load(open('/root/.vp/BASELINE.json'))
 want=set(base['stable_pass'])
 got=set()
-for l in open('/tmp/suite.json'):
+for l in open(sys.argv[1]):
     try: d=json.loads(l)
     except: continue
     if d.get('Action')=='pass' and d.get('Test') and '/' not in d['Test']:
@@ -16,3 +17,6 @@ miss=sorted(want-got)
 print('baseline',len(want),'passed-now',len(got&want),'missing',miss)
 import sys; sys.exit(1 if miss else 0)
 PY
+rc=$?
+rm -rf $T
+exit $rc
